@@ -58,6 +58,18 @@ pub fn strip_keep(strip: &crate::StripChunks, name: &[u8; 4]) -> bool {
     strip.keep(name)
 }
 
+/// `Deflaters::deflate` as the evaluator calls it: `Err(n)` = `DeflatedDataTooLong(n)`
+pub fn deflate_with_bound(
+    deflater: crate::Deflaters,
+    data: &[u8],
+    max_size: Option<usize>,
+) -> Result<Vec<u8>, Option<usize>> {
+    deflater.deflate(data, max_size).map_err(|e| match e {
+        PngError::DeflatedDataTooLong(n) => Some(n),
+        _ => None,
+    })
+}
+
 pub fn is_fully_optimized(original_size: usize, optimized_size: usize, opts: &Options) -> bool {
     crate::is_fully_optimized(original_size, optimized_size, opts)
 }
